@@ -545,6 +545,38 @@ example :
       c1M.journal.out.find 1000001 := by
   decide +kernel
 
+/-! #### the clock: `resend_full` holds for EVERY `env`, also one whose time text is EARLIER than the rows'
+
+`IsRetransmission.orig` ties OrigSendingTime to the row (its 122, else its SendingTime), never to the clock of
+the retransmission. -/
+
+/-- the wall clock stepped back: the request is served "the day before" the rows were stamped -/
+def envBack : Env := { now := 500, stamp := "20240101-23:59:59.999" }
+
+theorem hyp5back (b e : Int) (hb : 0 ≤ b) (he : 0 ≤ e) : Hyp envBack c5 (req b e) b e where
+  state := Or.inl rfl
+  sock := rfl
+  lsender := by decide
+  ltarget := by decide
+  lstamp := by decide
+  inv := outInv5
+  envelope := envelope_req _ _ _ _
+  req := req_req b e hb he
+  fits := by decide
+
+example : Served (fun _ => true) envBack c5 (req 2 3) 2 3 := by
+  have := resend_full (fun _ => true) envBack c5 (req 2 3) 2 3 (hyp5back 2 3 (by decide) (by decide))
+  rw [if_pos (by decide)] at this
+  exact this
+
+/-- SendingTime is the (earlier) clock, OrigSendingTime the original SendingTime byte for byte -/
+example :
+    (writes (recv (fun _ => true) envBack c5 (req 2 3)).2).map
+      (fun g => (g.get? tMsgSeqNum, g.get? tSendingTime, g.get? tOrigSendingTime)) =
+      [(some "2", some "20240101-23:59:59.999", some stamp0),
+       (some "3", some "20240101-23:59:59.999", some stamp0)] := by
+  decide +kernel
+
 end NonVacuity
 
 end AsyncFix.Session.C06
